@@ -295,6 +295,14 @@ func checkC08(a *checkArgs, r *Result) error {
 		c.Name = "zero-config/" + c.Name
 		cases = append(cases, c)
 	}
+	// a ring only just larger than a full chunk, a large look-ahead, incompressible data: whether the chunk can still be
+	// copied raw out of the ring depends on the look-ahead bytes that occupy part of it
+	for i := 0; i < 6; i++ {
+		d := genRandom(rng, 140000+rng.Intn(40000))
+		cases = append(cases, w2Case{Op: "writer2-history", Name: fmt.Sprintf("tight-ring/w%d C", len(d)), LC: 3, PB: 2,
+			DictCap: 56000 + rng.Intn(9000), BufSize: []int{8192, 16384, 12000}[i%3], Matcher: 0,
+			Hist: []w2Op{{"write", hxe(d)}, {"close", ""}}})
+	}
 	for i := 0; i < 4; i++ {
 		d := genBarely(rng, 140000+rng.Intn(60000))
 		cases = append(cases, w2Case{Op: "writer2-history", Name: fmt.Sprintf("barely/w%d C", len(d)), LC: 3, PB: 2, DictCap: []int{1 << 20, 65536}[i%2], BufSize: 4096,
